@@ -16,6 +16,7 @@ using namespace c07;
 
 struct ClusterSpec {
     int parent = -1;                 // index of the parent cluster, -1 = child of the root
+    int rect = -1;                   // >= 0: cluster built from this node's rectangle (RectangularCluster(rectIndex))
     std::vector<unsigned> nodes;
     double pad[4] = {0, 0, 0, 0};    // xMin xMax yMin yMax
     double mar[4] = {0, 0, 0, 0};
@@ -34,6 +35,7 @@ static void printClusters(const Scene8 &s) {
         for (unsigned i : k.nodes) printf(" %u", i);
         printf("\n");
     }
+    for (size_t c = 0; c < s.clusters.size(); ++c) if (s.clusters[c].rect >= 0) printf("crect %zu %d\n", c, s.clusters[c].rect);
     for (auto &g : s.exempt) { printf("exempt %zu", g.size()); for (unsigned i : g) printf(" %u", i); printf("\n"); }
 }
 
@@ -41,9 +43,11 @@ static void printClusters(const Scene8 &s) {
 static cola::RootCluster *buildClusters(const Scene8 &s, std::vector<cola::RectangularCluster *> &out) {
     cola::RootCluster *root = new cola::RootCluster();
     for (auto &k : s.clusters) {
-        cola::RectangularCluster *rc = new cola::RectangularCluster();
-        rc->setPadding(cola::Box(k.pad[0], k.pad[1], k.pad[2], k.pad[3]));
-        rc->setMargin(cola::Box(k.mar[0], k.mar[1], k.mar[2], k.mar[3]));
+        cola::RectangularCluster *rc = k.rect >= 0 ? new cola::RectangularCluster((unsigned) k.rect) : new cola::RectangularCluster();
+        if (k.rect < 0) {
+            rc->setPadding(cola::Box(k.pad[0], k.pad[1], k.pad[2], k.pad[3]));
+            rc->setMargin(cola::Box(k.mar[0], k.mar[1], k.mar[2], k.mar[3]));
+        }
         for (unsigned i : k.nodes) rc->addChildNode(i);
         out.push_back(rc);
     }
@@ -56,7 +60,7 @@ static cola::RootCluster *buildClusters(const Scene8 &s, std::vector<cola::Recta
 
 // random hierarchy: up to `kmax` clusters, depth <= 3, every cluster has at least one own node,
 // every node in at most one cluster
-static void genClusters(vh::Rng &r, Scene8 &s, unsigned kmax) {
+static void genClusters(vh::Rng &r, Scene8 &s, unsigned kmax, int rectNum = 0, int rectDen = 1) {
     unsigned n = (unsigned) s.rects.size();
     if (n < 2) return;
     unsigned k = (unsigned) r.range(1, std::min(kmax, n / 2 + 1));
@@ -72,6 +76,18 @@ static void genClusters(vh::Rng &r, Scene8 &s, unsigned kmax) {
         unsigned m = (unsigned) r.range(1, std::max(1u, std::min(3u, n - used - (k - c - 1))));
         for (unsigned j = 0; j < m && used < n; ++j) cs.nodes.push_back(order[used++]);
         std::sort(cs.nodes.begin(), cs.nodes.end());
+        if (rectNum > 0 && r.coin(rectNum, rectDen) && used < n) {
+            // container rectangle: another node, made large enough to hold the members, any aspect ratio
+            cs.rect = (int) order[used++];
+            RectSpec &R = s.rects[cs.rect];
+            double cx = cxOf(R), cy = cyOf(R);
+            const double dims[3][2] = {{120, 120}, {200, 80}, {80, 200}};
+            int asp = (int) r.range(0, 2); double sc = r.coin() ? 1 : 1.5;
+            double w = dims[asp][0] * sc, h = dims[asp][1] * sc;
+            R.x = cx - w / 2; R.X = cx + w / 2; R.y = cy - h / 2; R.Y = cy + h / 2;
+            s.clusters.push_back(cs);
+            continue;
+        }
         bool uniform = r.coin();
         double p0 = r.range(0, 3) * 2.5, m0 = r.range(0, 3) * 2.5;
         for (int i = 0; i < 4; ++i) { cs.pad[i] = uniform ? p0 : r.range(0, 4) * 2.5; cs.mar[i] = uniform ? m0 : r.range(0, 4) * 2.5; }
@@ -109,7 +125,7 @@ static void genExempt(vh::Rng &r, Scene8 &s) {
 }
 
 // ------------------------------------------------------------------------------------------ tie
-static void genCase(long k, const vh::Args &a) {
+static void genCase(long k, const vh::Args &a, bool rectMode = false) {
     vh::Rng r = vh::caseRng(a.seed, k);
     bool thorough = a.tier == "thorough";
     Scene8 s;
@@ -123,10 +139,10 @@ static void genCase(long k, const vh::Args &a) {
         RectSpec &A = s.rects[i], &B = s.rects[j];
         double w = B.X - B.x; B.x = A.X - e; B.X = B.x + w;
     }
-    bool clustered = r.coin();
-    if (clustered) genClusters(r, s, 4);
+    bool clustered = rectMode || r.coin();
+    if (clustered) { if (rectMode) genClusters(r, s, 4, 2, 3); else genClusters(r, s, 4); }
     genExempt(r, s);
-    vh::beginCase(k, clustered ? "gen-noc-clusters" : "gen-noc-flat");
+    vh::beginCase(k, rectMode ? "gen-noc-rectclusters" : clustered ? "gen-noc-clusters" : "gen-noc-flat");
     printRects(s.rects);
     printClusters(s);
     fflush(stdout);
@@ -152,7 +168,7 @@ static void genCase(long k, const vh::Args &a) {
     cola::NonOverlapConstraints noc(&ex);
     // the calls of recGenerateClusterVariablesAndConstraints(noc != nullptr), children first
     std::vector<bool> inCluster(n, false);
-    for (auto &c : s.clusters) for (unsigned i : c.nodes) inCluster[i] = true;
+    for (auto &c : s.clusters) { for (unsigned i : c.nodes) inCluster[i] = true; if (c.rect >= 0) inCluster[c.rect] = true; }
     std::function<void(int)> feed = [&](int c) {
         for (size_t d = 0; d < s.clusters.size(); ++d) if (s.clusters[d].parent == c) feed((int) d);
         unsigned group = c < 0 ? root->clusterVarId : rcs[c]->clusterVarId;
@@ -164,8 +180,14 @@ static void genCase(long k, const vh::Args &a) {
             noc.addShape(i, rs[i]->width() / 2, rs[i]->height() / 2, group);
         }
         for (size_t d = 0; d < s.clusters.size(); ++d) if (s.clusters[d].parent == c) {
-            printf("addcluster %zu %u\n", d, group);
-            noc.addCluster(rcs[d], group);
+            if (rcs[d]->clusterIsFromFixedRectangle()) {      // treated like a shape, as in colafd.cpp
+                unsigned id = (unsigned) rcs[d]->rectangleIndex();
+                printf("addshape %u %s %s %u\n", id, H(rs[id]->width() / 2), H(rs[id]->height() / 2), group);
+                noc.addShape(id, rs[id]->width() / 2, rs[id]->height() / 2, group);
+            } else {
+                printf("addcluster %zu %u\n", d, group);
+                noc.addCluster(rcs[d], group);
+            }
         }
     };
     feed(-1);
@@ -185,6 +207,17 @@ static void genCase(long k, const vh::Args &a) {
             cs.clear();
         }
         for (auto *v : vars) delete v;
+    }
+    // RectangularCluster::generateFixedRectangleConstraints: the equalities tying the boundary
+    // variables of a rectangle-based cluster to its container rectangle
+    for (size_t c = 0; c < rcs.size(); ++c) {
+        cola::CompoundConstraints idle; vpsc::Variables dummy[2];
+        rcs[c]->generateFixedRectangleConstraints(idle, rs, dummy);
+        for (auto *q : idle) {
+            cola::SeparationConstraint *sc = static_cast<cola::SeparationConstraint *>(q);
+            printf("frcon %zu %d %u %u %s %d\n", c, (int) sc->dimension(), sc->left(), sc->right(), H(sc->gap), (int) sc->equality);
+            delete q;
+        }
     }
     if (!clustered) {
         // makeFeasible's encoding: the four alternatives (left/right/below/above) offered for the
@@ -219,24 +252,73 @@ static std::string runGuarded(const std::function<void()> &f) {
     catch (...) { return "unknown"; }
 }
 
-static void layoutCase(long k, const vh::Args &a) {
+// Scene for rectangle-based clusters: container rectangles of every aspect ratio, small members
+// starting inside, outsiders starting beyond one chosen side and tied to a member by a short edge,
+// so that the member is pulled against that side from inside and the outsider from outside.
+static void genRectClusterScene(vh::Rng &r, Scene8 &s) {
+    unsigned nc = (unsigned) r.range(1, 2);
+    double originX = 0;
+    for (unsigned c = 0; c < nc; ++c) {
+        const double dims[3][2] = {{120, 120}, {200, 80}, {80, 200}};
+        int asp = (int) r.range(0, 2); double sc = r.coin() ? 1 : 1.5;
+        double w = dims[asp][0] * sc, h = dims[asp][1] * sc;
+        double cx = originX + q4(r, -20, 20), cy = q4(r, -20, 20);
+        originX += 500;
+        ClusterSpec cs; cs.rect = (int) s.rects.size();
+        RectSpec R; R.x = cx - w / 2; R.X = cx + w / 2; R.y = cy - h / 2; R.Y = cy + h / 2; s.rects.push_back(R);
+        unsigned m = (unsigned) r.range(1, 3), o = (unsigned) r.range(1, 3);
+        int side = (int) r.range(0, 3);                      // 0 min-x, 1 max-x, 2 min-y, 3 max-y
+        bool coincident = r.coin(1, 3);
+        std::vector<unsigned> members, outs;
+        for (unsigned j = 0; j < m; ++j) {
+            double mw = r.range(5, 10) * 2, mh = r.range(5, 10) * 2;
+            double mx = coincident ? cx : cx + q4(r, -(long) (w / 4), (long) (w / 4)), my = coincident ? cy : cy + q4(r, -(long) (h / 4), (long) (h / 4));
+            RectSpec M; M.x = mx - mw / 2; M.X = mx + mw / 2; M.y = my - mh / 2; M.Y = my + mh / 2;
+            members.push_back((unsigned) s.rects.size()); cs.nodes.push_back((unsigned) s.rects.size()); s.rects.push_back(M);
+        }
+        for (unsigned j = 0; j < o; ++j) {
+            double ow = r.range(5, 15) * 2, oh = r.range(5, 15) * 2;
+            double d = q4(r, 20, 120), t = q4(r, -40, 40);
+            double ox = cx, oy = cy;
+            if (side == 0) { ox = cx - w / 2 - d; oy = cy + t; } else if (side == 1) { ox = cx + w / 2 + d; oy = cy + t; }
+            else if (side == 2) { oy = cy - h / 2 - d; ox = cx + t; } else { oy = cy + h / 2 + d; ox = cx + t; }
+            if (r.coin(1, 5)) { ox = cx; oy = cy; }             // outsider starting inside the container
+            RectSpec O; O.x = ox - ow / 2; O.X = ox + ow / 2; O.y = oy - oh / 2; O.Y = oy + oh / 2;
+            outs.push_back((unsigned) s.rects.size()); s.rects.push_back(O);
+        }
+        for (unsigned j = 0; j < o; ++j) { s.edges.push_back(std::make_pair(members[j % m], outs[j])); s.elen.push_back(r.coin() ? 0.25 : 1); }
+        for (unsigned j = 1; j < m; ++j) if (r.coin()) { s.edges.push_back(std::make_pair(members[0], members[j])); s.elen.push_back(2); }
+        if (c > 0 && r.coin()) { s.edges.push_back(std::make_pair(outs[0], 1u)); s.elen.push_back(4); }
+        s.clusters.push_back(cs);
+    }
+    s.ideal = r.coin() ? 20 : 40;
+    s.graphKind = "rectclusters"; s.startKind = "rectclusters";
+    s.hx.assign(s.rects.size(), 0); s.hy.assign(s.rects.size(), 0);
+}
+
+static void layoutCase(long k, const vh::Args &a, bool rectMode = false) {
     vh::Rng r = vh::caseRng(a.seed, k);
     bool thorough = a.tier == "thorough";
     Scene8 s;
+    unsigned n = 0; bool clustered = true, withUser = false;
+    if (rectMode) { genRectClusterScene(r, s); n = (unsigned) s.rects.size(); }
+    else {
     unsigned nmax = thorough ? (r.coin(1, 8) ? 40 : 14) : 10;
-    unsigned n = (unsigned) r.range(2, nmax);
+    n = (unsigned) r.range(2, nmax);
     genGraph(r, s, n);
     int start = (int) r.range(0, 5); if (start == 5) start = 1;      // coincident twice as likely
     genRects(r, s, n, start);
-    bool clustered = r.coin(1, 2);
+    clustered = r.coin(1, 2);
     if (clustered) genClusters(r, s, thorough ? 6 : 4);
     genExempt(r, s);
     if (clustered) genHiddenClustered(r, s, 160); else genHidden(r, s, 80);
-    bool withUser = r.coin(1, 2);
+    withUser = r.coin(1, 2);
     if (withUser) genSatisfiable(r, s, (unsigned) r.range(1, 4), !clustered, false);
+    }
     bool nstress = r.coin(1, 4);
     unsigned iters = (unsigned) r.range(2, thorough ? 30 : 15);
-    std::string tag = std::string(clustered ? "clusters" : "flat") + (withUser ? "-user" : "-plain");
+    if (rectMode) iters = (unsigned) r.range(10, 40);
+    std::string tag = rectMode ? "rectclusters" : std::string(clustered ? "clusters" : "flat") + (withUser ? "-user" : "-plain");
     vh::beginCase(k, tag.c_str());
     printScene(s);
     printClusters(s);
@@ -278,15 +360,17 @@ int main(int argc, char **argv) {
     bool thorough = a.tier == "thorough";
     long ngen = (thorough ? 4000 : 500) * a.scale;
     long nlay = (thorough ? 2000 : 400) * a.scale;
-    if (a.n >= 0) { ngen = a.n; nlay = a.n; }
+    long ngenR = (thorough ? 1500 : 200) * a.scale, nlayR = (thorough ? 800 : 150) * a.scale;
+    if (a.n >= 0) { ngen = a.n; nlay = a.n; ngenR = a.n; nlayR = a.n; }
     long k = 0;
     for (long i = 0; i < ngen; ++i, ++k) if (a.want(k)) genCase(k, a);
     const unsigned limit = thorough ? 10 : 5;
-    for (long i = 0; i < nlay; ++i, ++k) {
+    for (long i = 0; i < nlay + nlayR; ++i, ++k) {
+        if (i == nlay) for (long j = 0; j < ngenR; ++j, ++k) if (a.want(k)) genCase(k, a, true);
         if (!a.want(k)) continue;
         fflush(stdout);
         pid_t pid = fork();
-        if (pid == 0) { alarm(limit); layoutCase(k, a); fflush(stdout); exit(0); }
+        if (pid == 0) { alarm(limit); layoutCase(k, a, i >= nlay); fflush(stdout); exit(0); }
         int st = 0; waitpid(pid, &st, 0);
         if (WIFSIGNALED(st) && WTERMSIG(st) == SIGALRM) { printf("hang %u\n", limit); vh::endCase(); continue; }
         if (WIFSIGNALED(st)) { fprintf(stderr, "child killed by signal %d in case %ld\n", WTERMSIG(st), k); return 99; }
